@@ -214,8 +214,14 @@ def handleImpl (ds : DState) (op : String) (args impl : List String) : Option (D
       | _, _ => false) || (match args[0]? with
       | some sl => (match slotId st sl with | some a => a.length == 36 && st.goneIds.contains a | none => false)
       | none => false)
+    -- … and a handle of an entity that was NOT deleted stays valid, also when the route it was obtained by (through the victim) is gone
+    let survivor : Bool := args.length == 2 && args[1]? == some "alive" && impl != ["ok", "none"] && ok &&
+      (match args[0]? with
+       | some sl => (match slotId st sl with | some a => a.length == 36 && !st.goneIds.contains a && (st.lastDump.map fun d => d.any (·.id == a)) == some true | none => false)
+       | none => false)
     fin st (judge s!"valid.{if ok then "ok" else "err"}" impl impl
-      (if args.length == 2 && args[1]? == some "deleted" && sameEntity && impl != ["ok", "none"] then [("deleted_handle_reports_invalid", impl == ["ok", "0"])] else []))
+      ((if args.length == 2 && args[1]? == some "deleted" && sameEntity && impl != ["ok", "none"] then [("deleted_handle_reports_invalid", impl == ["ok", "0"])] else []) ++
+       (if survivor then [("handle_of_a_surviving_entity_stays_valid", impl == ["ok", "1"])] else [])))
   | "getlinkh" =>
     match args, impl with
     | slot :: _, ["ok", id] => fin (if id.length == 36 then bind st slot id else { st with slotIds := st.slotIds.filter (·.1 != slot) }) (.ok s!"getlinkh.{if id.length == 36 then "found" else "none"}")
